@@ -10,6 +10,7 @@ import (
 	"fmt"
 	"strings"
 	"testing"
+	"unicode"
 
 	"pgregory.net/rapid"
 
@@ -38,6 +39,9 @@ func toHTML(n *vgen.SNode, tags *[]int) string {
 			b.WriteString(toHTML(k, tags))
 		}
 		return b.String()
+	}
+	if n.Op == "unknown" {
+		return "<" + n.Text + ">" + toHTML(n.Kids[0], tags) + "</" + n.Text + ">"
 	}
 	which := 0
 	if len(*tags) > 0 {
@@ -73,7 +77,23 @@ func checkInline(c InlineCase) vrep.Result {
 	}
 	want := vorc.Visible(c.Tree.Ref())
 	got := vorc.Visible(p.Cells)
-	if c.Block == "li" {
+	if hasUnknown(c.Tree) {
+		// elements without a style of their own (sup, small, abbr …): however the renderer shows the element itself,
+		// the text inside keeps exactly the styling of the elements around it. Only the text's own (upper-case and
+		// ideographic) characters are compared.
+		classes = append(classes, "element-without-style")
+		own := func(cells []vorc.Cell) []vorc.Cell {
+			out := []vorc.Cell{}
+			for _, cell := range cells {
+				if unicode.IsUpper(cell.R) || unicode.Is(unicode.Han, cell.R) {
+					out = append(out, cell)
+				}
+			}
+			return out
+		}
+		want, got = own(want), own(got)
+	}
+	if c.Block == "li" && !hasUnknown(c.Tree) {
 		// the bullet
 		if len(got) == 0 || got[0].R != '•' {
 			return vrep.Result{Classes: classes, Err: fmt.Errorf("list item without its bullet: %q", clip(out))}
@@ -111,11 +131,25 @@ func checkInline(c InlineCase) vrep.Result {
 	return vrep.Result{Classes: classes, Nontrivial: depth >= 2 && edge}
 }
 
+func hasUnknown(n *vgen.SNode) bool {
+	if n.Op == "unknown" {
+		return true
+	}
+	for _, k := range n.Kids {
+		if hasUnknown(k) {
+			return true
+		}
+	}
+	return false
+}
+
+var unknownTags = []string{"sup", "sub", "small", "abbr", "cite", "q", "kbd", "time", "big", "font", "var", "dfn", "samp", "tt"}
+
 var inlineOps = []string{"bold", "italic", "underline", "strike", "code", "highlight"}
 
 func genInlineTree(t *rapid.T, depth int) *vgen.SNode {
 	word := func() string {
-		return rapid.SampledFrom([]string{"this", "page", "a", "both", "x", "word", "Z", "07", "née", "世界", "end."}).Draw(t, "word")
+		return rapid.SampledFrom([]string{"THIS", "PAGE", "A", "BOTH", "X", "WORD", "Z", "07", "NÉE", "世界", "END.", "4", "TH"}).Draw(t, "word")
 	}
 	text := func() *vgen.SNode {
 		n := rapid.IntRange(1, 3).Draw(t, "nwords")
@@ -141,8 +175,10 @@ func genInlineTree(t *rapid.T, depth int) *vgen.SNode {
 	}
 	kids := []*vgen.SNode{}
 	for n := rapid.IntRange(1, 3).Draw(t, "nkids"); n > 0; n-- {
-		if rapid.IntRange(0, 2).Draw(t, "kidkind") == 1 {
+		if k := rapid.IntRange(0, 8).Draw(t, "kidkind"); k%3 == 1 {
 			kids = append(kids, text())
+		} else if k == 8 {
+			kids = append(kids, &vgen.SNode{Op: "unknown", Text: rapid.SampledFrom(unknownTags).Draw(t, "unknowntag"), Kids: []*vgen.SNode{genInlineTree(t, depth-1)}})
 		} else {
 			kids = append(kids, &vgen.SNode{Op: rapid.SampledFrom(inlineOps).Draw(t, "op"), Kids: []*vgen.SNode{genInlineTree(t, depth-1)}})
 		}
